@@ -1,23 +1,26 @@
 """C14 -- field cross-references are recorded on the field that is accessed.
 
-Rule (symbolic path execution of `Analysis._create_xref`, recorders inlined to the
-primitive `set.add`, see agstatic/xref_engine.py): for every iget*/sget* opcode of the
-Dalvik table (resp. iput*/sput*) every path is either excused because the target field is
-not defined in the analysed files, or adds (CUR class, CUR method, OFF) to the
-get_xref_read() (resp. get_xref_write()) set of the FieldAnalysis that lives in the
-ClassAnalysis of the field's *own* class under the key EncodedField-of-the-reference,
-and adds (CUR class, that EncodedField, OFF) to the accessing method's get_xref_read/
-write set; read opcodes never reach a write record and vice versa; the EncodedField is
-looked up with (class_name, name, type) of the instruction's own field reference in the
-order the lookup expects; no FieldAnalysis is created outside the declaring class;
-`Analysis.add` registers exactly one FieldAnalysis(field) per declared field in
-classes[cls.get_name()] and `get_field_analysis(f)` reads
-classes[f.get_class_name()]._fields[f]; the target field is resolved among all analysed
-DEX files.
+Decided by abstract execution on model DEX files (agstatic/xref_model.py): `Analysis.__init__`, `Analysis.add`,
+`Analysis.create_xref` and everything they call are executed by the shared abstract interpreter (nothing of androguard
+is imported or run) on small model DEX objects -- classes, methods, fields, aligned reference pools, instructions with
+a concrete opcode, a reference index and a symbolic byte offset.  Then every public xref getter of every analysis
+object (and the lookup API) is evaluated the same way and the complete state is compared with the state the property
+prescribes for the model, computed independently from the Dalvik opcode table (agstatic/spec/dalvik.py).  Only computed
+results are judged, so helper methods, generators, dispatch tables, getattr through name tables, equivalent opcode
+tests, get-or-create idioms are all the same to the check; a VIOLATION is a positively computed difference (absent /
+unexpected record in an exactly evaluated set, wrong number of analysis objects, the analysed code raises); whatever
+the interpreter cannot evaluate is an analysis error (exit 2).
+
+Scenarios for C14: F1 one instruction of every opcode -- only iget*/sget* (resp. iput*/sput*) may produce read (resp.
+write) records; F3 every field opcode on a field of the own class, of another class and on a field that is not defined:
+the FieldAnalysis returned by Analysis.get_field_analysis(field) lists (accessing class, accessing method, offset), the
+accessing method lists (class, field, offset), nothing is recorded for the undefined field, and every defined field has
+exactly one FieldAnalysis; F6 the accessed field's class lives in another DEX of the same analysis (both add orders).
 """
 from __future__ import annotations
 
 from ..model import ANALYSIS, DEX
+from ..xref_model import check_property
 from ..xref_engine import (Engine, XrefModel, XrefRules, Collector, Mut, rule_registration, rule_field_lookup, rule_field_resolution,
                            run_mutants, m_swap_args, m_set_arg, m_set_receiver, m_rename_call, m_delete_call, m_const, m_replace_src, b_rename_local)
 
@@ -26,14 +29,10 @@ OWN_MUTATION_ADEQUACY = True
 
 
 def core(sink, eng):
-    xm = XrefModel(eng)
-    xr = XrefRules(sink, xm, "C14")
-    xr.run(("field",))
-    rule_registration(sink, xm, "fields")
-    rule_field_lookup(sink, eng)
-    rule_field_resolution(sink, xm)
-    xr.sites_floor(4)
-    sink.floor("facts", 20)
+    check_property(sink, eng.repo, "C14")
+    sink.floor("scenarios", 2)
+    sink.floor("prescribed_records", 200)
+
 
 
 CX = "Analysis._create_xref"
